@@ -285,3 +285,32 @@ Theorem C03_input_unmodified_prefix_alias_refuted :
     SliceHeap.sreach h' SliceHeapProofs.w_pfx <> SliceHeap.sreach h SliceHeapProofs.w_pfx.
 Proof. exact SliceHeapProofs.old_code_aliases. Qed.
 Print Assumptions C03_input_unmodified_prefix_alias_refuted.
+
+(** all three branches of toDeleteNotification on HEAD, mixed in one
+    gnmiRemove ([br d]: atomic container -- the stored prefix slice itself is
+    handed out --, Elem / mixed encoding, both sides in the deprecated
+    encoding): frame and paths together *)
+Theorem C03_input_unmodified_all_branches :
+  forall (A : Type) (extra : nat -> nat -> nat) (br : SliceHeap.dsrc A -> SliceHeap.branch)
+         (ds : list (SliceHeap.dsrc A)) h h' os,
+    Forall (SliceHeapProofs.dsrc_ok h) ds ->
+    SliceHeap.build_deletes (SliceHeap.to_delete_head extra br) h ds = (h', os) ->
+    (forall id, (id < List.length h)%nat -> SliceHeap.get_arr h' id = SliceHeap.get_arr h id) /\
+    (forall s, (SliceHeap.s_id s < List.length h)%nat ->
+               SliceHeap.sreach h' s = SliceHeap.sreach h s /\ SliceHeap.sread h' s = SliceHeap.sread h s) /\
+    SliceHeap.read_all h' os = map (SliceHeap.want_head br h) ds.
+Proof. exact (@SliceHeapProofs.deletes_head_frame_paths). Qed.
+Print Assumptions C03_input_unmodified_all_branches.
+
+(** the [[]string] instance: the [default:] branch (prefix.Element, path.Element) *)
+Theorem C03_input_unmodified_element_branch :
+  forall (extra : nat -> nat -> nat) (ds : list (SliceHeap.dsrc String.string)) h h' os,
+    Forall (SliceHeapProofs.dsrc_ok h) ds ->
+    SliceHeap.build_deletes (SliceHeap.to_delete_head extra (fun _ => SliceHeap.BElement)) h ds = (h', os) ->
+    (forall id, (id < List.length h)%nat -> SliceHeap.get_arr h' id = SliceHeap.get_arr h id) /\
+    (forall s, (SliceHeap.s_id s < List.length h)%nat ->
+               SliceHeap.sreach h' s = SliceHeap.sreach h s /\ SliceHeap.sread h' s = SliceHeap.sread h s) /\
+    SliceHeap.read_all h' os =
+      map (fun d => SliceHeap.sread h (SliceHeap.d_pfx d) ++ SliceHeap.sread h (SliceHeap.d_path d)) ds.
+Proof. exact (fun extra => @SliceHeapProofs.deletes_head_frame_paths String.string extra (fun _ => SliceHeap.BElement)). Qed.
+Print Assumptions C03_input_unmodified_element_branch.
